@@ -25,6 +25,18 @@ BASES = [(2000, 1, 1, 0, 0), (2000, 2, 28, 18, 0), (1999, 12, 31, 23, 30), (2024
          (2010, 8, 15, 6, 0), (1970, 1, 1, 0, 0), (1969, 12, 30, 12, 0), (2000, 12, 30, 0, 0), (1, 3, 1, 0, 0),
          (9990, 10, 28, 0, 0), (2038, 1, 19, 3, 14)]
 DELTAS = [0, 0, 0, 0, 1, -1, 30, 60, -60, 360, 1440, -1440, 10080, 43200, -525600, 5, -90, 720]
+# histories: points whose strings are valid dates in all four calendars, around the places where the calendars disagree
+HIST_BASES = [(2000, 3, 1, 0, 0), (2000, 2, 28, 0, 0), (2000, 2, 27, 12, 0), (2001, 3, 1, 0, 0), (2004, 3, 1, 6, 0),
+              (2000, 3, 2, 0, 0), (2000, 5, 1, 0, 0), (2000, 6, 1, 0, 0), (2000, 12, 28, 18, 0), (2001, 1, 1, 0, 0),
+              (2000, 2, 1, 0, 0), (1999, 12, 1, 0, 0), (2000, 8, 1, 12, 0), (2000, 2, 28, 23, 30), (2000, 3, 1, 0, 30)]
+# literal pairs (a, b) of strings valid in every calendar whose ORDER and distance depend on the calendar: a is the first
+# of a month written one hour east of UTC, i.e. the last day of the previous month in UTC
+HIST_PAIRS = [('20000601T0030+0100', '20000530T2345Z'), ('20000801T0030+0100', '20000730T2345Z'),
+              ('20000301T0030+0100', '20000228T2345Z'), ('20010301T0000+0100', '20010228T2330Z'),
+              ('20000601T0030+0100', '20000601T0030+0100'), ('20000530T2345Z', '20000601T0030+0100'),
+              ('20040301T0030+0100', '20040228T2345Z'), ('20001101T0015+0100', '20001030T2345Z')]
+HIST_INTVS = ['P1D', 'P2D', 'PT24H', 'PT6H', 'P1W', '-P1D', 'PT36H', 'P3D', 'PT12H', '-PT6H', 'PT1H', 'P10D']
+HIST_DELTAS = [0, 0, 1440, -1440, 60, 2880, -60, 720, 4320]
 LIT_RE = re.compile(r'^([+-]?)(\d+)$')
 IV_RE = re.compile(r'^([+-]?)P(\d+)$')
 
@@ -61,6 +73,8 @@ class C18(Prop):
         'CylcModel.C18.dt_hash_consistent_of_fix',
         'CylcModel.C18.dt_standardise_add_sub_partial',
         'CylcModel.C18.dt_sub_minute_counterexample',
+        'CylcModel.C18.dt_cache_transparent',
+        'CylcModel.C18.dt_cache_counterexample',
     ]
     technique = ('Lean 4 theorems over the structured value strings (integer: sign/zeros/magnitude, unbounded; datetime: '
                  'instant + spelling) + exhaustive small box and random wide-range correspondence against the real classes')
@@ -74,7 +88,15 @@ class C18(Prop):
         'hash-nonstandard-spelling) and is proved for standardised points (int_hash_consistent_partial) and for a tree '
         'whose __hash__ goes through the value (int_hash_consistent_of_fix, flag probed from the live code). '
         'Datetime points: the same statements over the abstraction point = (instant, spelling), interval = seconds '
-        '(dt_*): parsing, dumping and calendar arithmetic (isodatetime) are not modelled, only tied by correspondence')
+        '(dt_*): parsing, dumping and calendar arithmetic (isodatetime) are not modelled, only tied by correspondence. '
+        'Histories: the lru_cached helpers of ISO8601Point (_iso_point_add, _iso_point_sub_interval, _iso_point_sub_point, '
+        '_iso_point_cmp) are modelled as a generic lru cache over an arbitrary calendar-dependent computation; '
+        'dt_cache_transparent: with the calendar mode in the key (flags probed from the live code) every call in any '
+        'history of calls under any sequence of calendars, any cache size, returns what the call made alone returns; '
+        'dt_cache_counterexample: not so once a key lacks the calendar. Not proved: transparency across a change of the '
+        'cycle point time zone / dump format in one process (it does not hold for the spelling of results: the keys lack '
+        'them; single cases clear the caches between configurations), _point_parse / _interval_parse caches (calendar '
+        'independent for strings valid in every calendar; exercised by the histories only)')
     trusted = [
         'rendering of the structured integer literals to text and back (harness: sign + zeros + decimal digits; Python '
         'int() semantics for these strings)',
@@ -94,8 +116,14 @@ class C18(Prop):
             'magnitudes up to 10^40 with equal/adjacent values forced; datetime: random instants around 12 base dates '
             '(years 1 to 9999, negative and 6-digit years with expanded year digits), 4 calendar modes, 6 cycle point time '
             'zones, 9 spellings (reduced, extended, other time zones, with seconds), b = a + delta with delta = 0 '
-            'in a third of the cases, 20 fixed-length durations including negative and zero ones. '
-            'class = kind / order relation / spelling relation / interval sign')
+            'in a third of the cases, 20 fixed-length durations including negative and zero ones; histories: 2-6 steps '
+            'executed in ONE process with the lru caches of cycling/iso8601.py empty at the start only, each step under a '
+            'calendar drawn from the 4 modes (at least two different), points from 15 dates valid in every calendar next to '
+            'the places where the calendars disagree (ends of February, 31-day months), 1-2 distinct point strings and 1-2 '
+            'of 12 durations per history so that the same (point, interval) strings recur under different calendars, and in '
+            '30% of the histories the same literal pair of strings whose order and distance depend on the calendar (first of '
+            'a month written one hour east of UTC against the 30th / 28th in UTC); every step is judged as if made alone. '
+            'class = kind / order relation / spelling relation / interval sign; histories: steps / calendars / switch-back')
     workers = 16
 
     # ------------------------------------------------------------------
@@ -132,6 +160,34 @@ class C18(Prop):
         else:
             raise ValueError(f'unexpected default cycle point format {fmt!r}')
         t = lambda x: 'true' if x else 'false'  # noqa: E731
+
+        # are the lru_cached helpers keyed by the calendar: the same strings under gregorian, then under 360day,
+        # against 360day alone
+        P, V = I.ISO8601Point, I.ISO8601Interval
+        probes = {
+            'add': lambda: str(P('20000229T0000Z') + V('P1D')),
+            'sub': lambda: str(P('20000301T0000Z') - V('P1D')),
+            'diff': lambda: str(P('20000301T0000Z') - P('20000228T0000Z')),
+            'cmp': lambda: str(P('20000301T0000+0100') < P('20000229T2330Z')),
+        }
+        keyed = {}
+        try:
+            for name, op in probes.items():
+                self.clear_caches()
+                I.init(time_zone='Z', cycling_mode='gregorian')
+                first = op()
+                I.init(time_zone='Z', cycling_mode='360day')
+                after = op()
+                self.clear_caches()
+                I.init(time_zone='Z', cycling_mode='360day')
+                alone = op()
+                if first == alone:
+                    raise ValueError(f'calendar probe {name} does not distinguish the calendars ({first})')
+                keyed[name] = (after == alone)
+        finally:
+            self.clear_caches()
+            I.init(time_zone='Z', cycling_mode='gregorian')
+            self._cfg = None
         return {'PointsCfg.lean': (
             '/- GENERATED by harness/props/c18.py translate() from the live source. Do not edit. -/\n'
             'namespace CylcModel.Points\n'
@@ -141,16 +197,35 @@ class C18(Prop):
             f'def dtHashByInstant : Bool := {t(dh)}\n'
             '/-- resolution in seconds of the default cycle point dump format (`DATE_TIME_FORMAT`) -/\n'
             f'def dumpRes : Int := {res}\n'
+            '/-- are the results of the lru_cached helpers kept apart per calendar mode (probed: the same strings '
+            'under gregorian, then 360day) -/\n'
+            f'def addKeyedByCalendar : Bool := {t(keyed["add"])}\n'
+            f'def subKeyedByCalendar : Bool := {t(keyed["sub"])}\n'
+            f'def diffKeyedByCalendar : Bool := {t(keyed["diff"])}\n'
+            f'def cmpKeyedByCalendar : Bool := {t(keyed["cmp"])}\n'
             'end CylcModel.Points\n')}
 
-    def _init(self, inp):
+    def clear_caches(self):
+        """empty every functools.lru_cache of cycling/iso8601.py"""
+        I = self.I
+        for holder in (I.ISO8601Point, I.ISO8601Interval, I):
+            for name in dir(holder):
+                if name.startswith('__'):
+                    continue
+                fn = getattr(holder, name, None)
+                if callable(getattr(fn, 'cache_clear', None)):
+                    fn.cache_clear()
+
+    def _init(self, inp, clear=True):
         cfg = (inp['mode'], inp['tz'], inp['xy'])
         if cfg != self._cfg:
             self.I.init(num_expanded_year_digits=inp['xy'], time_zone=inp['tz'], cycling_mode=inp['mode'])
-            # the lru caches of the point arithmetic are keyed by (strings, calendar mode) only: results computed
-            # under another cycle point time zone / dump format would be served (one process = one workflow in cylc)
-            for name in ('_iso_point_add', '_iso_point_cmp', '_iso_point_sub_interval', '_iso_point_sub_point'):
-                getattr(self.I.ISO8601Point, name).cache_clear()
+            if clear:
+                # single cases are independent of each other: one configuration = one process in cylc.  (The caches
+                # of the point arithmetic are keyed by (strings, calendar mode): a result computed under another
+                # cycle point time zone would be served in the spelling of that zone.)  Histories (kind 'hist')
+                # switch calendars WITHOUT clearing.
+                self.clear_caches()
             self._cfg = cfg
 
     # ------------------------------------------------------------------
@@ -167,6 +242,19 @@ class C18(Prop):
              'sa': 1, 'sb': 2, 'i': 'P1W'},
             {'k': 'dt', 'mode': 'gregorian', 'tz': '-0530', 'xy': 2, 'base': [-1, 12, 31, 23, 30], 'delta': 0,
              'sa': 2, 'sb': 3, 'i': '-P1D'},
+            # histories: one process, calendar switches, the same point and interval strings
+            {'k': 'hist', 'tz': 'Z', 'xy': 0, 'steps': [
+                {'mode': 'gregorian', 'base': [2000, 3, 1, 0, 0], 'delta': 0, 'sa': 0, 'sb': 0, 'i': 'P1D'},
+                {'mode': '360day', 'base': [2000, 3, 1, 0, 0], 'delta': 0, 'sa': 0, 'sb': 0, 'i': 'P1D'},
+                {'mode': '365day', 'base': [2000, 3, 1, 0, 0], 'delta': 1440, 'sa': 0, 'sb': 0, 'i': 'P1D'},
+                {'mode': 'gregorian', 'base': [2000, 3, 1, 0, 0], 'delta': 0, 'sa': 0, 'sb': 0, 'i': 'P1D'}]},
+            {'k': 'hist', 'tz': '+0100', 'xy': 0, 'steps': [
+                {'mode': '360day', 'base': [2000, 2, 28, 0, 0], 'delta': 2880, 'sa': 0, 'sb': 0, 'i': 'P2D'},
+                {'mode': '366day', 'base': [2000, 2, 28, 0, 0], 'delta': 2880, 'sa': 0, 'sb': 0, 'i': 'P2D'},
+                {'mode': '365day', 'base': [2000, 2, 28, 0, 0], 'delta': 2880, 'sa': 1, 'sb': 0, 'i': 'P2D'}]},
+            {'k': 'hist', 'tz': 'Z', 'xy': 0, 'steps': [
+                dict(base=[2000, 6, 1, 0, 0], delta=0, sa=0, sb=0, i='P1D', mode=m,
+                     ta='20000601T0030+0100', tb='20000530T2345Z') for m in ('gregorian', '360day', 'gregorian', '365day')]},
         ]
 
     def gen(self, tier, rng):
@@ -182,11 +270,34 @@ class C18(Prop):
             small = [l for l in lits if l[2] <= 6]
             for a, b, i in itertools.product(small, small, ivs):
                 yield {'k': 'int', 'a': a, 'b': b, 'i': i}
-        n_int, n_dt = {'quick': (4000, 3000), 'thorough': (150000, 80000), 'search': (60000, 40000)}[tier]
+        n_int, n_dt, n_hist = {'quick': (4000, 3000, 1200), 'thorough': (150000, 80000, 20000),
+                               'search': (60000, 40000, 10000)}[tier]
         for _ in range(n_int):
             yield self.random_int(rng)
         for _ in range(n_dt):
             yield self.random_dt(rng)
+        for _ in range(n_hist):
+            yield self.random_hist(rng)
+
+    def random_hist(self, rng):
+        """a history of 2-6 steps in one process: few distinct point / interval strings, calendar switches"""
+        bases = [list(rng.choice(HIST_BASES)) for _ in range(rng.choice([1, 1, 2]))]
+        ivs = [rng.choice(HIST_INTVS) for _ in range(rng.choice([1, 1, 2]))]
+        deltas = [rng.choice(HIST_DELTAS) for _ in range(rng.choice([1, 2]))]
+        spells = [0, 0, 0, rng.randrange(len(SPELL))]
+        n = rng.randint(2, 6)
+        modes = [rng.choice(MODES) for _ in range(n)]
+        if len(set(modes)) == 1:
+            modes[-1] = rng.choice([m for m in MODES if m != modes[0]])
+        steps = [{'mode': m, 'base': rng.choice(bases), 'delta': rng.choice(deltas), 'sa': rng.choice(spells),
+                  'sb': rng.choice(spells), 'i': rng.choice(ivs)} for m in modes]
+        xy = 2 if rng.random() < 0.1 else 0
+        if not xy and rng.random() < 0.3:
+            # the same two literal strings in every step: their order / distance is calendar dependent
+            pairs = [rng.choice(HIST_PAIRS) for _ in range(rng.choice([1, 1, 2]))]
+            for st in steps:
+                st['ta'], st['tb'] = rng.choice(pairs)
+        return {'k': 'hist', 'tz': rng.choice(TZS), 'xy': xy, 'steps': steps}
 
     def random_int(self, rng):
         def lit(m=None):
@@ -222,6 +333,8 @@ class C18(Prop):
     def impl(self, inp):
         if inp['k'] == 'int':
             return self.impl_int(inp)
+        if inp['k'] == 'hist':
+            return self.impl_hist(inp)
         return self.impl_dt(inp)
 
     def impl_int(self, inp):
@@ -247,19 +360,44 @@ class C18(Prop):
     def secs(self, tp):
         return int(tp.seconds_since_unix_epoch)
 
-    def impl_dt(self, inp):
+    def impl_hist(self, inp):
+        """the steps one after the other in THIS process, switching calendars, caches empty at the start only"""
+        self.clear_caches()
+        self._cfg = None
+        try:
+            envs, obs, texts = [], [], []
+            for st in inp['steps']:
+                r = self.impl_dt(dict(st, k='dt', tz=inp['tz'], xy=inp['xy']), hist=True)
+                if r['build'] != 'ok':
+                    continue
+                envs.append(dict(r['env'], mode=st['mode']))
+                obs.append(r['obs'])
+                texts.append([st['mode']] + r['texts'])
+            if len(envs) < 2:
+                return {'build': 'skip', 'why': 'history shorter than two steps'}
+            return {'build': 'ok', 'env': {'k': 'hist', 'steps': envs}, 'obs': {'steps': obs}, 'texts': texts}
+        finally:
+            self.clear_caches()
+            self._cfg = None
+
+    def impl_dt(self, inp, hist=False):
         I = self.I
-        self._init(inp)
+        self._init(inp, clear=not hist)
         P, V = I.ISO8601Point, I.ISO8601Interval
+        # reference parser for the instants handed to model and judge: the isodatetime parser of the current
+        # configuration, not the lru_cached wrapper of cylc (every step is judged as if it were made alone)
+        rp = I.WorkflowSpecifics.point_parser.parse
         xy = inp['xy']
         y, mo, d, h, mi = inp['base'][:5]
         sec = inp['base'][5] if len(inp['base']) > 5 else 0
         try:
             yr = (('+' if y >= 0 else '-') + '%06d' % abs(y)) if xy else '%04d' % y
-            ta0 = I.point_parse('%s%02d%02dT%02d%02d%02dZ' % (yr, mo, d, h, mi, sec))
+            ta0 = rp('%s%02d%02dT%02d%02d%02dZ' % (yr, mo, d, h, mi, sec))
             tb0 = ta0 + self.Duration(minutes=inp['delta'])
             if not xy and not (0 <= tb0.year <= 9999):
                 return {'build': 'skip', 'why': 'year out of range'}
+            if inp.get('ta') is not None:
+                rp(inp['ta']), rp(inp['tb'])
         except Exception as exc:
             return {'build': 'skip', 'why': 'base: ' + type(exc).__name__}
 
@@ -270,17 +408,19 @@ class C18(Prop):
                 return canon
             try:
                 alt = self.dumper.dump(tp, ('+X' + fmt) if xy else fmt)
-                if self.secs(I.point_parse(alt)) == self.secs(tp):
+                if self.secs(rp(alt)) == self.secs(tp):
                     return alt
             except Exception:
                 pass
             return canon
 
         sa, sb = spell(ta0, inp['sa']), spell(tb0, inp['sb'])
+        if inp.get('ta') is not None:
+            sa, sb = inp['ta'], inp['tb']           # the two point strings given literally
         try:
             isecs = int(I.interval_parse(inp['i']).get_seconds())
-            ia, ib = self.secs(I.point_parse(sa)), self.secs(I.point_parse(sb))
-            ca, cb = str(I.point_parse(sa)), str(I.point_parse(sb))
+            ia, ib = self.secs(rp(sa)), self.secs(rp(sb))
+            ca, cb = str(rp(sa)), str(rp(sb))
         except Exception as exc:
             return {'build': 'skip', 'why': 'spelling: ' + type(exc).__name__}
         ida = 0 if sa == ca else 1
@@ -289,7 +429,7 @@ class C18(Prop):
 
         def lit(p):
             """(instant, spelling) of a point produced by the code"""
-            tp = I.point_parse(p.value)
+            tp = rp(p.value)
             return [self.secs(tp), 0 if p.value == str(tp) else 9]
 
         try:
@@ -339,6 +479,11 @@ class C18(Prop):
             big = 'big' if max(env['a'][2], env['b'][2]) >= 2 ** 63 else 'small'
             tags = ['int', 'lt' if va < vb else ('eq' if va == vb else 'gt'), sp,
                     'i<0' if iv < 0 else ('i=0' if iv == 0 else 'i>0'), big]
+        elif env['k'] == 'hist':
+            cal = [st['mode'] for st in env['steps']]
+            tags = ['hist', '%dsteps' % len(cal), '%dcalendars' % len(set(cal)),
+                    'switch-back' if len(cal) > 2 and cal[0] in cal[2:] and cal[1] != cal[0] else 'forward',
+                    'xy' if inp['xy'] else 'ccyy']
         else:
             va, vb = env['a'][0], env['b'][0]
             sp = 'same-string' if env['a'] == env['b'] else (
@@ -360,6 +505,15 @@ class C18(Prop):
                         out.append(dict(base, **{key: [s, z, base[key][2]]}))
             out.append(dict(base, b=list(base['a'])))
             out.append(dict(base, i=['', 0, 0]))
+        elif base['k'] == 'hist':
+            st = base['steps']
+            for i in range(len(st)):
+                if len(st) > 2:
+                    out.append(dict(base, steps=st[:i] + st[i + 1:]))
+                for m in MODES:
+                    out.append(dict(base, steps=st[:i] + [dict(st[i], mode=m)] + st[i + 1:]))
+            out.append(dict(base, steps=list(reversed(st))))
+            out.append(dict(base, steps=st + st))
         else:
             for d in (0, 1, -1, 1440):
                 out.append(dict(base, delta=d))
